@@ -39,6 +39,30 @@ logger = logging.getLogger(__name__)
 SHA1 = 20
 
 
+def _destination(dest: str, relative: str) -> str:
+    """
+    Join a path taken from a metafile to the destination directory.
+
+    Parameters
+    ----------
+    dest : str
+        the destination directory
+    relative : str
+        name and path elements recorded in the metafile
+
+    Returns
+    -------
+    str
+        the joined path, or None if it would lie outside the destination
+    """
+    base = os.path.realpath(dest)
+    target = os.path.realpath(os.path.join(base, str(relative)))
+    if target != base and not target.startswith(base + os.sep):
+        logger.warning("Ignoring path outside of destination: %s", relative)
+        return None
+    return os.path.join(dest, str(relative))
+
+
 class PathNode:
     """
     Base class representing information regarding a file included in torrent.
@@ -176,8 +200,9 @@ class PieceNode:
             partial = pathnode.get_part(loc)
             val = self._find_matches(filemap, paths[1:], data + partial)
             if val:
-                dest_path = os.path.join(self.dest, pathnode.full)
-                copypath(loc, dest_path)
+                dest_path = _destination(self.dest, pathnode.full)
+                if dest_path:
+                    copypath(loc, dest_path)
                 return val
         return False
 
@@ -398,7 +423,9 @@ class Metadata(CbMixin, ProgMixin):
                         hasher = HasherV2(path, self.piece_length, True)
                         if entry["root"] != hasher.root:
                             continue
-                    dest_path = os.path.join(dest, entry["full"])
+                    dest_path = _destination(dest, entry["full"])
+                    if not dest_path:
+                        continue
                     copypath(path, dest_path)
                     self._update()
                     self.cb(path, dest_path, self.num_pieces)
